@@ -11,12 +11,14 @@ META = {
     'engine': 'lean-D',
     'technique': 'Lean 4 proofs (induction over the remaining text / over 16-byte rows) about a hand model of hex.c in which a C string is a byte list with an explicit NUL '
                  'and every read and pointer step is checked; model tied to the C by differential runs on exactly-sized heap strings under ASan',
-    'level_text': 'Proved for the model, for every byte array and every byte string of any length: hex_dump_to_file writes exactly rows of 16 two-digit lower-case pairs each ended by a newline; '
-                  'repeated hex_get_byte calls on that text return exactly the bytes and then -1 for ever; on every string (any bytes) no call reads or steps beyond the NUL, every result is in 0..255 or -1, '
-                  '-1 comes after at most len/2 byte results and is sticky, in both calling styles (NULL continuation and hextest.c style); pairs with optional 0x, either case, arbitrary blanks and an '
-                  'address: prefix on every line (or no colon anywhere) parse to exactly the pairs. '
-                  'Sampled, not proved: that the C code behaves as the model (correspondence run each check: dumps of lengths around multiples of 16 with all byte values, syntax-directed texts, '
-                  'random and exhaustively enumerated short strings; libc isspace/isxdigit and hex.c nibble/hexchar tables compared for all 256 chars).',
+    'level_text': 'Proved for the model, for every byte array and every byte string of any length and any number of calls: (dump_format) hex_dump_to_file writes exactly ceil(n/16) rows of 16 two-digit lower-case pairs '
+                  '(the last row 1..16), each ended by a newline; (dump_parse_roundtrip) hex_get_byte(text,&p), hex_get_byte(NULL,&p), ... on that text return exactly the bytes and then -1 for ever; '
+                  '(parser_safe, parser_no_fault, parser_ptr_within) on every string (any bytes) no call reads or moves a pointer beyond the NUL, *p stays inside the string, every result is in 0..255 or -1, '
+                  '-1 comes after at most len/2 byte results and is sticky, in both calling styles (NULL continuation and the hextest.c style); (accepted_syntax) pairs with optional 0x, either case, arbitrary blanks '
+                  'and an address: prefix on every line (more generally: never an address after a line without one) parse to exactly the pairs, the final newline being optional. '
+                  'Sampled, not proved: that the C code behaves as the model (correspondence run on every check: dumps of lengths around every multiple of 16 with all byte values, syntax-directed texts, '
+                  'random strings and near misses, every string over a 7-8 letter alphabet up to length 5 (quick) / 7 (thorough), exactly-sized heap copies under ASan; '
+                  'libc isspace/isxdigit and hex.c nibble/hexchar tables compared for all 256 chars).',
     'level_note': 'Trusted: Lean kernel (standard axioms only); hand model of hex.c validated each run against the real code compiled from the tree (harness includes hex.c); libc strchr/isspace/isxdigit/fprintf '
                   'are modelled by explicit definitions (isspace/isxdigit compared with libc for all 256 values, C locale); char is signed (x86-64 gcc); the int return value of hex_dump_to_file is '
                   'compared for the lengths run, not modelled beyond INT_MAX.',
@@ -24,6 +26,7 @@ META = {
 }
 REQUIRED = ['Librfn.C18.dump_format', 'Librfn.C18.dump_parse_roundtrip', 'Librfn.C18.parser_safe', 'Librfn.C18.parser_no_fault',
             'Librfn.C18.parser_ptr_within', 'Librfn.C18.accepted_syntax', 'Librfn.C18.accepted_syntax_address_on_each_line',
+            'Librfn.C18.accepted_syntax_no_address', 'Librfn.C18.dump_parse_roundtrip_hextest_style',
             'Librfn.C18.chunks_shape', 'Librfn.C18.chunks_flatten']
 
 BLANKS = b' \t\v\f\r'            # isspace minus newline
@@ -360,7 +363,7 @@ def examine(ctx, exe, ops, label, stats):
         small = shrink(ctx, exe, op, against_model=True)
         sio = run_impl(exe, [small], 60)[0]; smo = run_model(ctx, [small], 60)[0]
         ctx.broken.append(f'correspondence hex ({label}): the model differs from the implementation on `{small.line()}` '
-                          f'(text {small.data!r}): model={smo} impl={sio}; the property\'s own clauses hold on this input')
+                          f'(text {small.data[:80]!r}): model={str(smo)[:300]} impl={str(sio)[:300]}; the property\'s own clauses hold on this input')
         return agreed
     return agreed
 
@@ -381,24 +384,50 @@ def deep_search(ctx, exe, rng, stats):
     return False
 
 
+def coverage(ctx, ops):
+    """thorough tier: which lines / branches of hex.c did the generated inputs reach (gcov on an uninstrumented-by-ASan build)"""
+    d = os.path.join(ctx.tmp, 'cov')
+    os.makedirs(d, exist_ok=True)
+    rc, o, e = vlib.sh(['gcc', '-g', '-O0', '--coverage', '-I' + os.path.join(vlib.REPO, 'include'), '-I' + vlib.REPO + '/librfn',
+                        '-o', os.path.join(d, 'h_cov'), os.path.join(vlib.VERIF, 'harness/h_hex.c')], timeout=120, cwd=d)
+    if rc != 0:
+        ctx.notes.append('coverage build failed: ' + (o + e)[-300:]); return
+    vlib.sh([os.path.join(d, 'h_cov')], input=''.join(op.line() + '\n' for op in ops), timeout=300, cwd=d)
+    rc, o, e = vlib.sh(['gcov', '-b', '-o', '.', 'h_cov-h_hex.gcda'], timeout=120, cwd=d)
+    m = re.search(r"File '[^']*librfn/hex\.c'\s*Lines executed:([\d.]+)% of (\d+)\s*Branches executed:([\d.]+)% of (\d+)\s*Taken at least once:([\d.]+)% of (\d+)", o)
+    if not m:
+        ctx.notes.append('coverage: gcov output not understood: ' + (o + e)[-300:]); return
+    missed = []
+    try:
+        for ln in open(os.path.join(d, 'hex.c.gcov'), errors='replace'):
+            mm = re.match(r'\s*#####:\s*(\d+):(.*)', ln)
+            if mm:
+                missed.append(f'{mm.group(1)}:{mm.group(2).strip()[:60]}')
+    except OSError:
+        pass
+    ctx.cov['hex_c_coverage'] = {'lines_pct': float(m.group(1)), 'lines': int(m.group(2)), 'branches_executed_pct': float(m.group(3)),
+                                 'branches_taken_pct': float(m.group(5)), 'branches': int(m.group(4)), 'lines_not_executed': missed,
+                                 'note': 'hex_dump() (a one-line wrapper writing to stdout) is not called by the harness'}
+
+
 def build_ops(ctx, rng):
     quick = ctx.tier == 'quick'
     groups = {}
     groups['dump'] = [Op('dump', a, cls='dump') for a in gen_dump_arrays(rng, ctx.tier)]
-    syn = [gen_syntax(rng) for _ in range(600 if quick else 12000)]
+    syn = [gen_syntax(rng) for _ in range(600 if quick else 30000)]
     groups['syntax'] = [syntax_op(s) for s in syn]
     # hextest.c style re-runs the colon search on every call, so only colon-free texts are in the accepted syntax there
-    groups['syntax-reparse'] = [syntax_op(s, 'reparse') for s in syn if not s[0]][:(150 if quick else 3000)]
-    rnd = [gen_string(rng) for _ in range(4000 if quick else 100000)]
-    rnd += [mutate(rng, render(s)) for s in syn[:(600 if quick else 12000)]]
+    groups['syntax-reparse'] = [syntax_op(s, 'reparse') for s in syn if not s[0]][:(150 if quick else 8000)]
+    rnd = [gen_string(rng) for _ in range(4000 if quick else 300000)]
+    rnd += [mutate(rng, render(s)) for s in syn[:(600 if quick else 30000)]]
     rnd += [mutate(rng, fmt_dump(a)) for a in gen_dump_arrays(rng, 'quick')[:40]]
     groups['tables'] = [Op('tables')]          # after the property-level classes: their witnesses are in the property's own terms
     groups['random'] = [Op('parse', t, cls='random') for t in rnd]
     groups['random-reparse'] = [Op('reparse', t, cls='random') for t in rnd[::3]]
-    alpha, depth = (b'0fx: \ng', 5) if quick else (b'0aFx: \ng', 6)
+    alpha, depth = (b'0fx: \ng', 5) if quick else (b'0aFx: \ng', 7)
     ex = exhaustive(alpha, depth)
     groups['exhaustive'] = [Op('parse', t, cls='exhaustive') for t in ex]
-    groups['exhaustive-reparse'] = [Op('reparse', t, cls='exhaustive') for t in (ex if quick else exhaustive(alpha, 5))]
+    groups['exhaustive-reparse'] = [Op('reparse', t, cls='exhaustive') for t in (ex if quick else exhaustive(alpha, 6))]
     return groups, (alpha, depth)
 
 
@@ -411,16 +440,18 @@ def run(ctx):
     stats = {}
     corpus = []
     cdir = os.path.join(vlib.VERIF, 'corpus', 'C18')
-    for fn in sorted(os.listdir(cdir)) if os.path.isdir(cdir) else []:
+    for fn in sorted(os.listdir(cdir)) if os.path.isdir(cdir) and not os.environ.get('VERIF_NO_CORPUS') else []:   # the switch is for mutation runs that measure the generators alone
         for ln in open(os.path.join(cdir, fn)):
-            w = ln.split()
-            if len(w) == 2 and w[0] in ('dump', 'parse', 'reparse'):
-                corpus.append(Op(w[0], b'' if w[1] == '-' else bytes.fromhex(w[1]), cls='corpus'))
+            w = ln.split('#')[0].split()
+            if len(w) >= 2 and w[0] in ('dump', 'parse', 'reparse'):
+                exp = [int(x) for x in w[2][7:].split(',') if x] if len(w) > 2 and w[2].startswith('expect=') else None
+                corpus.append(Op(w[0], b'' if w[1] == '-' else bytes.fromhex(w[1]), exp, cls='corpus'))
     groups, (alpha, depth) = build_ops(ctx, rng)
     order = [('corpus', corpus)] + list(groups.items())
     agreed, hist = 0, {}
+    broken_before = len(ctx.broken)           # a broken proof does not stop the correspondence run
     for name, ops in order:
-        if ctx.violations or ctx.broken:
+        if ctx.violations or len(ctx.broken) > broken_before:
             break
         got = examine(ctx, exe, ops, name, stats)
         agreed += got
@@ -431,6 +462,8 @@ def run(ctx):
             ctx.count(op.line(), nontrivial=nontrivial)
     if ctx.broken and not ctx.violations:
         deep_search(ctx, exe, rng, stats)
+    if ctx.tier == 'thorough' and not ctx.violations:
+        coverage(ctx, [op for _, ops in order for op in ops][:60000])
     ctx.cov['traces_validated_against_impl'] = agreed
     ctx.cov['ops_by_class'] = hist
     ctx.cov['bytes_returned_by_hex_get_byte'] = stats.get('bytes_returned', 0)
